@@ -7,6 +7,7 @@ From Coq Require Import String List Bool ZArith QArith Qabs Arith Lia.
 From GV Require Import Base.Outcome Base.AMap Model.GState Model.Creation Model.Query Model.Derived
   Model.Components Model.Scc Model.Cluster Model.ClusterW Model.Square Model.Partition Model.Eigen Model.Cent
   Model.Brandes Model.Closeness Model.Louvain.
+From GV Require Import Model.Classic Model.Gnp.
 From GV Require Import Spec.History Proofs.WFDefs Proofs.HistoryOk Proofs.DegreeOk Proofs.LouvainModelOk Proofs.TotalAll.
 Import ListNotations.
 Open Scope string_scope.
@@ -199,4 +200,23 @@ Proof.
   { intros _ e He. vm_compute in He. destruct He as [<-|[<-|[<-|[]]]]; cbn; eexists; split; try reflexivity; lia. }
   split; [intros H; discriminate|]. split; [discriminate|].
   vm_compute. repeat split; lia.
+Qed.
+
+(* ---------------------------------------------------------------- generators: arguments outside the valid range *)
+Example total_generators_example :
+  (exists g, complete_graph (-3) true = Ok g /\ get_all_nodes g = []) /\
+  (exists g, complete_graph 1 false = Ok g /\ length (get_all_nodes g) = 1%nat /\ get_all_edges g = []) /\
+  fast_gnp_random_graph 4 FNaN true [0%Z] = Err InvalidArgument /\
+  fast_gnp_random_graph 4 (FInf false) false [] = Err InvalidArgument /\
+  (exists g, fast_gnp_random_graph (-7) (FFin (1 # 2)) false [] = Ok g /\ get_all_nodes g = []) /\
+  fast_gnp_random_graph 4 (FFin (1 # 2)) false [1%Z] = OutOfFuel /\
+  (exists g, fast_gnp_random_graph 4 (FFin (1 # 2)) false [1; 0; 2; 0; 0; 7; 0]%Z = Ok g /\
+             length (get_all_edges g) = 3%nat).
+Proof.
+  split. { eexists. split; vm_compute; reflexivity. }
+  split. { eexists. split; [vm_compute; reflexivity|]. split; vm_compute; reflexivity. }
+  split; [vm_compute; reflexivity|]. split; [vm_compute; reflexivity|].
+  split. { eexists. split; vm_compute; reflexivity. }
+  split; [vm_compute; reflexivity|].
+  eexists. split; vm_compute; reflexivity.
 Qed.
